@@ -82,6 +82,7 @@ def words3(q, m):
 def state_grid_cases(sym, cross=True):
     """every isotope|None x charge x radical of `sym` as a one-atom molecule (hydrogen count rotating 0..4/None) against its own
     query atom, the query atoms differing in exactly one field, and the wildcards; yields one dict per (molecule, query) pair."""
+    from chython import MoleculeContainer
     from chython.periodictable import Element, QueryElement, AnyElement, ListElement
     _ext()
     cls = Element.from_symbol(sym)
@@ -109,6 +110,13 @@ def state_grid_cases(sym, cross=True):
                 except Exception as e:
                     yield dict(base, query='build', qstate=None, expect=True, acc='raises ' + type(e).__name__, ref=None, bits3=None, mask3=None)
                     continue
+                # the same state through the pack format (5-bit isotope offset, 4-bit charge, radical bit, 3-bit hydrogens, 7 = unknown)
+                try:
+                    u = MoleculeContainer.unpack(m.pack()).atom(1)
+                    got = (u.isotope, u.charge, u.is_radical, u.implicit_hydrogens, u.atomic_number)
+                except Exception as e:
+                    got = 'raises ' + type(e).__name__
+                yield dict(base, query='pack-unpack', qstate=None, expect=(iso, c, r, h, cls.atomic_number.fget(None)), acc=got, ref=None, bits3=None, mask3=None)
                 tests = [('own', Q(iso, c, r), True)]
                 if cross:
                     tests.append(('any-isotope', Q(None, c, r), True))
@@ -132,16 +140,24 @@ def state_grid_cases(sym, cross=True):
 
 
 def grid_detail(x):
+    if x['query'] == 'pack-unpack':
+        ok = x['acc'] == x['expect']
+        d = f"{x['symbol']}:iso={x['iso']}:charge={x['charge']}:radical={x['radical']}:h={x['h']}:pack-unpack"
+        return d, d + ('' if ok else f":expected (isotope, charge, radical, hydrogens, number)={x['expect']}:got={x['acc']}"), ok
     ok = x['acc'] is x['expect'] and x['ref'] is x['expect']
     d = f"{x['symbol']}:iso={x['iso']}:charge={x['charge']}:radical={x['radical']}:h={x['h']}:query={x['query']}"
     return d, d + ('' if ok else f":expected={x['expect']}:accelerated={x['acc']}:reference={x['ref']}"), ok
 
 
+def grid_pred(x):
+    return 'pack-state-grid' if x['query'] == 'pack-unpack' else 'matcher-state-grid'
+
+
 def state_grid_predicates(sym, cross=True):
-    """yields (predicate, detail, ok): both REAL matchers give the documented answer for the pair"""
+    """yields (predicate, detail, ok): both REAL matchers give the documented answer for the pair; the pack image is the state"""
     for x in state_grid_cases(sym, cross):
         _, detail, ok = grid_detail(x)
-        yield ('matcher-state-grid', detail, ok)
+        yield (grid_pred(x), detail, ok)
 
 
 def bits_request(x):
@@ -218,6 +234,16 @@ def check_state(cls, a, state):
             bad.append((f'{k} vs fresh object', o[k], f[k]))
     if not (a == fresh and fresh == a):
         bad.append(('== fresh object', False, True))
+    from chython.periodictable import QueryElement, DynamicElement
+    try:
+        q = QueryElement.from_atom(a)
+        d = DynamicElement.from_atom(a)
+        got = ((q.isotope, q.charge, q.is_radical, q.atomic_number), (d.isotope, d.charge, d.is_radical, d.p_charge, d.p_is_radical, d.atomic_number))
+    except Exception as e:
+        got = 'raises ' + type(e).__name__
+    wantv = ((iso, c, r, o['number']), (iso, c, r, c, r, o['number']))
+    if got != wantv:
+        bad.append(('Query/Dynamic variant from_atom', got, wantv))
     cp = a.copy()
     if not _close(observe(cp)['mass'], want) or (cp.isotope, cp.charge, cp.is_radical) != state:
         bad.append(('copy()', (cp.isotope, cp.charge, cp.is_radical, observe(cp)['mass']), state + (want,)))
